@@ -5,6 +5,9 @@ import ScyllaVerif.Proofs.Conn
 import ScyllaVerif.Model.ConnSched
 import ScyllaVerif.Proofs.ConnSched
 import ScyllaVerif.Model.C02StreamIdWords
+import ScyllaVerif.Model.ConnIO
+import ScyllaVerif.Proofs.FrameStream
+import ScyllaVerif.Proofs.ConnIO
 /-!
 # C02 — every response reaches exactly the request it answers on a shared connection
 
@@ -556,5 +559,126 @@ example :
   decide +kernel
 
 end sched
+
+/-! ## 9. the reader CONSUMES: no complete frame stays in the buffer (audit D5 / round 6, item (a))
+
+`Props.C10.wire_is_frame_aligned` (`received = encodeAll fs ++ inbuf` for SOME `fs`) is also true of a reader that never
+takes anything out of its buffer. Here the frames are named: `consumedBy` is computed from the model's own run
+(`ConnIO.wrun` over the chunks): the bytes the reader has removed from its buffer, parsed. -/
+section consumes
+open ScyllaVerif.FrameStream ScyllaVerif.ConnIO
+
+/-- Ghost: the frames the model's reader has taken out of its buffer (and handed to `deliverFrame`) after the chunks
+arrived on wire `w` — what `readFrames` finds in `received` minus what is still in `inbuf`. -/
+def consumedBy (w : Wire) (chunks : List (List UInt8)) : List Frame :=
+  let w' := wrun w (chunks.map .bytes)
+  (readFrames ((w'.received.drop w.received.length).take
+      ((w'.received.length - w.received.length) - w'.inbuf.length))).1
+
+private theorem wrun_bytes (rest : List (List UInt8)) (w : Wire) (bs : List UInt8) (he : w.eof = false) :
+    (wrun (wstep w (.bytes bs)) (rest.map .bytes)).c = (reader w.c (w.inbuf ++ (bs ++ rest.flatten)) false).1 ∧
+    (wrun (wstep w (.bytes bs)) (rest.map .bytes)).inbuf = (reader w.c (w.inbuf ++ (bs ++ rest.flatten)) false).2 ∧
+    (wrun (wstep w (.bytes bs)) (rest.map .bytes)).received = w.received ++ (bs ++ rest.flatten) := by
+  induction rest generalizing w bs with
+  | nil => simp [wrun, wstep, he]
+  | cons b2 rest ih =>
+    have he1 : (wstep w (.bytes bs)).eof = false := by simp [wstep, he]
+    obtain ⟨h1, h2, h3⟩ := ih (wstep w (.bytes bs)) b2 he1
+    have hc : (wstep w (.bytes bs)).c = (reader w.c (w.inbuf ++ bs) false).1 := by simp [wstep, he]
+    have hi : (wstep w (.bytes bs)).inbuf = (reader w.c (w.inbuf ++ bs) false).2 := by simp [wstep, he]
+    have hr : (wstep w (.bytes bs)).received = w.received ++ bs := by simp [wstep, he]
+    have hrun : wrun (wstep w (.bytes bs)) ((b2 :: rest).map .bytes) =
+        wrun (wstep (wstep w (.bytes bs)) (.bytes b2)) (rest.map .bytes) := rfl
+    rw [hrun, h1, h2, h3, hc, hi, hr, reader_chunks]
+    simp [List.append_assoc]
+
+private theorem not_broken_of_reader {c : Conn} {b : List UInt8} {e : Bool}
+    (h : (reader c b e).1.broken = false) : c.broken = false := by
+  cases hb : c.broken with
+  | false => rfl
+  | true => rw [reader_broken hb] at h; simp_all
+
+private theorem reader_all (frames : List Frame) (hwf : ∀ f ∈ frames, f.wf) (g : Frame) (hg : g.wf) (k : Nat)
+    (hk : k < 9 + g.body.length) (c : Conn)
+    (hnb : (reader c (encodeAll frames ++ (encode g).take k) false).1.broken = false) :
+    (reader c (encodeAll frames ++ (encode g).take k) false).2 = (encode g).take k := by
+  induction frames generalizing c with
+  | nil =>
+    have hb := not_broken_of_reader hnb
+    have hcut := readFrame_cut g hg [] k hk
+    rw [List.append_nil] at hcut
+    have hstop : ∀ f rest, readFrame ((encode g).take k) ≠ .frame f rest := by
+      intro f rest; rw [hcut]; split
+      · simp
+      · split <;> simp
+    simp only [encodeAll, List.flatMap_nil, List.nil_append]
+    rw [reader_stop hb false hstop]
+  | cons f fs ih =>
+    have hb := not_broken_of_reader hnb
+    have hf : f.wf := hwf f List.mem_cons_self
+    have hall : encodeAll (f :: fs) ++ (encode g).take k = encode f ++ (encodeAll fs ++ (encode g).take k) := by
+      simp [encodeAll]
+    rw [hall] at hnb ⊢
+    rw [reader_frame hb false (readFrame_encode f hf _)] at hnb ⊢
+    exact ih (fun x hx => hwf x (List.mem_cons_of_mem _ hx)) _ hnb
+
+private theorem readFrames_encodeAll (frames : List Frame) (hwf : ∀ f ∈ frames, f.wf) :
+    (readFrames (encodeAll frames)).1 = frames := by
+  induction frames with
+  | nil => simp [encodeAll, readFrames_nil]
+  | cons f fs ih =>
+    have hall : encodeAll (f :: fs) = encode f ++ encodeAll fs := by simp [encodeAll]
+    rw [hall, readFrames_frame (readFrame_encode f (hwf f List.mem_cons_self) _)]
+    simp [ih (fun x hx => hwf x (List.mem_cons_of_mem _ hx))]
+
+/-- After ANY chunking `bs :: rest` of a byte stream that is the well-formed frames `f1..fn` followed by a proper
+prefix `p` of a frame, on a connection the reader has not ended: the model's reader has consumed EXACTLY `f1..fn`
+(none withheld, none invented, in order) and what stays buffered is exactly `p`. A reader that leaves a complete frame
+in its buffer falsifies this. (The chunk list is non-empty; single chunks may be empty.) -/
+theorem reader_consumes_every_complete_frame (c0 : Conn) (bs : List UInt8) (rest : List (List UInt8))
+    (frames : List Frame) (hwf : ∀ f ∈ frames, f.wf) (g : Frame) (hg : g.wf) (k : Nat) (hk : k < 9 + g.body.length)
+    (hstream : (bs :: rest).flatten = encodeAll frames ++ (encode g).take k)
+    (hnb : (wrun { c := c0 } ((bs :: rest).map .bytes)).c.broken = false) :
+    consumedBy { c := c0 } (bs :: rest) = frames ∧
+      (wrun { c := c0 } ((bs :: rest).map .bytes)).inbuf = (encode g).take k := by
+  obtain ⟨h1, h2, h3⟩ := wrun_bytes rest { c := c0 } bs rfl
+  have hrun : wrun { c := c0 } ((bs :: rest).map .bytes) = wrun (wstep { c := c0 } (.bytes bs)) (rest.map .bytes) := rfl
+  have hfl : bs ++ rest.flatten = encodeAll frames ++ (encode g).take k := by simpa using hstream
+  simp only [List.nil_append] at h1 h2 h3
+  rw [hfl] at h1 h2 h3
+  rw [hrun] at hnb
+  rw [h1] at hnb
+  have hin := reader_all frames hwf g hg k hk c0 hnb
+  refine ⟨?_, by rw [hrun, h2, hin]⟩
+  unfold consumedBy
+  simp only [hrun, h2, h3, hin, List.length_nil, List.drop_zero, Nat.sub_zero, List.length_append,
+    Nat.add_sub_cancel, List.take_left', readFrames_encodeAll frames hwf]
+
+/-- Hence the reader never stalls on a complete frame: if the buffer starts with a whole frame and the router lives,
+the reader's step hands that frame on and leaves strictly less in the buffer. -/
+theorem reader_never_stalls_on_complete_frame (c : Conn) (hb : c.broken = false) (inbuf rest : List UInt8)
+    (f : Frame) (e : Bool) (h : readFrame inbuf = .frame f rest) :
+    reader c inbuf e = reader (deliverFrame c f) rest e ∧ (reader c inbuf e).2.length < inbuf.length := by
+  have h1 := reader_frame hb e h
+  refine ⟨h1, ?_⟩
+  obtain ⟨fs, hfs⟩ := reader_rest rest (deliverFrame c f) e
+  have hlt := readFrame_rest_lt h
+  have : (reader (deliverFrame c f) rest e).2.length ≤ rest.length := by
+    conv => rhs; rw [hfs]
+    simp
+  rw [h1]; omega
+
+/-- non-vacuity: two answers (to requests 0 and 1) arrive in 1-byte chunks followed by 3 bytes of a third frame: the
+reader has consumed exactly the two frames, the 3 bytes stay buffered, both callers hold their frames. -/
+example :
+    let f0 : Frame := ⟨0, 0, 0x08, [1, 2]⟩
+    let f1 : Frame := ⟨0, 1, 0x08, []⟩
+    let c0 := run Conn.init [.submit, .submit, .writerTake, .writerTake]
+    let chunks := (encode f0 ++ encode f1 ++ (encode f0).take 3).map fun b => [b]
+    consumedBy { c := c0 } chunks = [f0, f1] ∧
+      (wrun { c := c0 } (chunks.map .bytes)).inbuf = (encode f0).take 3 ∧
+      (wrun { c := c0 } (chunks.map .bytes)).c.broken = false := by decide +kernel
+
+end consumes
 
 end ScyllaVerif.Props.C02
